@@ -1950,7 +1950,7 @@ def _propagate_defaults(ir, targets, ancestors, add_fn):
         incidental_actions={
             ancestor: attribute_util.gather_default_attributes for ancestor in ancestors
         },
-        parameters={"defaults": {}},
+        parameters={"defaults": {}, "back_end": "cpp"},
     )
 
 
